@@ -7,6 +7,7 @@ CONSTANTS
   LeaseIds = {1,2}
   MaxNow = 3
   MaxHist = 40
+  PathView = FALSE
   FullHist = FALSE
 INIT Init
 NEXT NextCore
